@@ -270,6 +270,8 @@ def oracle(rep, case, out):
     Fm = out.get('_formula') or {}
     xs = float(np.max(np.abs(x))) if n else 0.0
     nonneg = n > 0 and bool(np.all(y >= 0))
+    # condition class of a failure (no region is excluded: bands at and below 1 Angstrom are generated and checked
+    # like all others; the class only names where a failure of the barlam family sits)
     doc_bl = Fm.get('barlam')
     cond = 'barlam_le_1A' if (doc_bl is not None and doc_bl <= 1.0) else 'regular'
 
@@ -542,7 +544,7 @@ def underflow_risk(c):
 
 def gen_case(rng, K, nmax_t, nmax_g, sparse=False):
     """sparse (thorough tier): each of the three companion evaluations (bp*k, reversed grid, other unit) is made
-    for a quarter of the cases only, which keeps 1e5 cases x 17 method calls inside the time budget"""
+    for a quarter of the cases only, which keeps 4e4 cases x 17 method calls inside the time budget"""
     while True:
         c = gen_case1(rng, K, nmax_t, nmax_g)
         if not underflow_risk(c):
@@ -596,7 +598,7 @@ def gen_case1(rng, K, nmax_t, nmax_g):
 FIXED = [
     # all-zero throughput: every guard
     {'expr': band({'leaf': 'empirical', 'pts': qs([1000, 2000, 3000]), 'vals': qs([0, 0, 0]), 'keep_neg': True}), 'grid': None},
-    # weight at exactly 1 Angstrom (num == 0 guard of barlam), and below 1 Angstrom
+    # weight at exactly 1 Angstrom (mean ln = 0), and below 1 Angstrom (mean ln < 0): regression for ca9035f
     {'expr': band({'leaf': 'empirical', 'pts': qs([1, 2]), 'vals': qs([1, 0]), 'keep_neg': True}), 'grid': None},
     {'expr': band({'leaf': 'empirical', 'pts': qs([F(1, 8), F(1, 4), F(1, 2)]), 'vals': qs([0, 1, F(1, 2)]), 'keep_neg': True}), 'grid': None},
     # no sampling set at all
@@ -662,7 +664,7 @@ def nontrivial(c, o):
 
 def budget(rep):
     thorough = rep.tier == 'thorough'
-    return (100000, 200, 200) if thorough else (3000, 12, 12)
+    return (40000, 200, 200) if thorough else (3000, 12, 12)
 
 
 GEN_CHUNK = 500
